@@ -92,10 +92,42 @@ def model_all(it):
     return builtins.all(it)
 
 
+def model_map(f, *its):
+    from .seqmodel import SymSeq
+
+    if len(its) == 1 and isinstance(its[0], SymSeq):
+        return its[0].map(f)
+    return builtins.map(f, *its)
+
+
+def model_max(*args, **kw):
+    """max over a symbolic sequence of numbers: a value bounded below by every element and attained"""
+    from .seqmodel import SymSeq
+
+    if len(args) == 1 and isinstance(args[0], SymSeq) and not kw:
+        import z3
+
+        from .ctx import cur
+
+        seq = args[0]
+        c = cur()
+        c.ensure(alg.gt(seq.K, 0), ValueError, "max() iterable argument is empty")
+        m = c.fresh("max", z3.IntSort())
+        w = c.fresh("maxw", z3.IntSort())
+        val = lambda q: (seq.at(q).val if isinstance(seq.at(q), SNum) else seq.at(q))  # noqa: E731
+        c.assume(alg.and_(alg.le(0, w), alg.lt(w, seq.K), alg.eq(m, val(w))))
+        c.add_fact("max-bound", lambda q: alg.implies(alg.and_(alg.le(0, q), alg.lt(q, seq.K)), alg.ge(m, val(q))))
+        c.index_seeds.append(w)
+        return SNum(m, False, "pyi")
+    return builtins.max(*args, **kw)
+
+
 REBOUND = {
     "len": model_len,
     "int": model_int,
     "float": model_float,
     "any": model_any,
     "all": model_all,
+    "map": model_map,
+    "max": model_max,
 }
